@@ -183,6 +183,72 @@ def run_history(t, inputs, cleared, same):
     return first, differences(first, second, same)
 
 
+# ---- neighbour-first histories: a RELATED annotation is built before the one under observation -----------------------
+# "Construction is repeatable" quantifies over what the process built before: the behaviour of T must not depend on a
+# parameterised / bare / wrapped / containing relative of T having been built first (seeded change C15-r7m1: hints memo
+# written through Box[int] onto the bare class Box).  (first, observed, inputs of observed)
+NEIGHBOURS = [
+    ("XG[int]", "XG", ["{'v': '1'}", "XG(1)"]),
+    ("XG", "XG[int]", ["{'v': '1'}"]),
+    ("XGD[int]", "XGD", ["{'v': '1'}", "XGD(1)"]),
+    ("XGD", "XGD[int]", ["{'v': '1'}"]),
+    ("XGD[str]", "XGD[int]", ["{'v': '1'}"]),
+    ("list[XGD[int]]", "XGD", ["{'v': '1'}"]),
+    ("dict[str, XG[str]]", "XG", ["{'v': 1}"]),
+    ("typing.Optional[XGD[int]]", "list[XGD]", ["[{'v': '1'}]"]),
+    ("list[HPoint]", "HPoint", ["{'x': '1', 'y': [1]}"]),
+    ("HPoint", "typing.Optional[HPoint]", ["{'x': '1'}", "None"]),
+    ("HB", "HA", ["{'b': {'a': {'b': None}, 't': ['1']}}"]),
+    ("HA", "HB", ["{'a': {'b': None}, 't': ['1', 2]}"]),
+    ("tuple[int, ...]", "tuple[tuple[int, ...], tuple[int, ...]]", ["(['1'], ['2', '3'])"]),
+    ("list[typing.Any]", "tuple[int, typing.Any]", ["('1', [2])"]),
+    ("XT", "list[XT]", ["['x', 1]"]),
+    ("XNoAnn", "list[XNoAnn]", ["[{'a': '1', 'b': [2]}]"]),
+    ("typing.Final[XGD[int]]", "XGD", ["{'v': '1'}"]),
+]
+
+
+def run_neighbour_history(first_t, t, inputs, clear_between, same):
+    impl.clear_caches()
+    alone = observe(t, inputs)                  # T built in a fresh state
+    impl.clear_caches()
+    observe(first_t, [])                        # the relative is built first
+    if clear_between:
+        for f in impl.cached_functions():       # every cache_clear() hook there is: what survives is not a cache
+            try:
+                f.cache_clear()
+            except Exception:  # noqa: BLE001
+                pass
+    after = observe(t, inputs)
+    impl.clear_caches()
+    return alone, differences(alone, after, same)
+
+
+def neighbour_stream(mod, src, stats, same):
+    fails, n = [], 0
+    for first_src, ann, ins in NEIGHBOURS:
+        try:
+            first_t, t = eval(first_src, mod.__dict__), eval(ann, mod.__dict__)
+            inputs = [eval(x, mod.__dict__) for x in ins]
+        except Exception:  # noqa: BLE001
+            continue
+        for clear_between in (False, True):
+            n += 1
+            stats["evaluations"] += 1
+            alone, diffs = run_neighbour_history(first_t, t, inputs, clear_between, same)
+            if all(v == "ok" for v in alone["construct"].values()):
+                stats["nontrivial"] += 1
+            if diffs:
+                f = failure(ann, src, ins, "neighbour-first", ["<all>"] if clear_between else [], diffs)
+                f["built_first"] = first_src
+                f["clear_between"] = clear_between
+                f["symptom"] = ("after a related annotation was built first (%s%s) " % (
+                    first_src, ", then every cache cleared" if clear_between else "")) + f["symptom"]
+                f["key"] = f"C15-history-neighbour-{first_src}-{ann}"
+                fails.append(f)
+    return fails, n
+
+
 def failure(ann, module_source, inputs_src, family, names, diffs):
     kind = diffs[0][0]
     return {"symptom": ("construction is not repeatable after clearing some of the caches" if kind == "construction"
@@ -201,6 +267,10 @@ def replay(payload, prelude):
     try:
         t = eval(payload["annotation"], mod.__dict__)
         inputs = [eval(s, mod.__dict__) for s in payload.get("inputs_src", [])]
+        if payload.get("built_first"):
+            alone, diffs = run_neighbour_history(eval(payload["built_first"], mod.__dict__), t, inputs,
+                                                 bool(payload.get("clear_between")), coreprop.same)
+            return {"fails": bool(diffs), "got": [d[1] for d in diffs], "expected": [d[2] for d in diffs]}
         cleared = [c for c in (resolve(n) for n in payload["cleared"]) if c is not None]
         first, diffs = run_history(t, inputs, cleared, coreprop.same)
         return {"fails": bool(diffs), "got": [d[1] for d in diffs], "expected": [d[2] for d in diffs],
@@ -261,6 +331,9 @@ def stream(run, records, prelude, stats):
                     stats["nontrivial"] += 1
                 if diffs:
                     fails.append(failure(ann, msrc, ins_src, family, names, diffs))
+        nf, nn = neighbour_stream(mod, src, stats, coreprop.same)
+        fails += nf
+        counts["neighbour_first_histories"] = nn
     finally:
         impl.drop_module("verif_c15_hist")
     return fails, counts
